@@ -258,7 +258,7 @@ func (s *Swarm) merge(buf []byte) (mesh.GossipData, error) {
 	}
 
 	// Merge and get the delta
-	delta := s.state.Merge(other)
+	delta := newGossipData(s.state.Merge(other))
 	other.Subscriptions(func(ev *event.Subscription, v event.Value) {
 		if ev.Peer == uint64(s.router.Ourself.Name) {
 			return // Skip ourselves
@@ -298,7 +298,7 @@ func (s *Swarm) NumPeers() int {
 
 // Gossip returns the state of everything we know; gets called periodically.
 func (s *Swarm) Gossip() (complete mesh.GossipData) {
-	return s.state
+	return newGossipData(s.state)
 }
 
 // OnGossip merges received data into state and returns "everything new I've just
@@ -363,7 +363,7 @@ func (s *Swarm) Notify(ev event.Event, enabled bool) {
 	}
 
 	// Broadcasting just this operation
-	s.gossip.GossipBroadcast(op)
+	s.gossip.GossipBroadcast(newGossipData(op))
 }
 
 // Contains checks whether an event is currently triggered within the cluster.
@@ -379,6 +379,44 @@ func (s *Swarm) Close() error {
 
 	s.state.Close()
 	return s.router.Stop()
+}
+
+// gossipData adapts a replicated state to the gossip data of the mesh. The mesh combines
+// the payloads which are pending for a link using Merge() and sends out the result, hence
+// Merge() needs to return the union of both payloads whereas merging two states returns
+// the delta and consumes its argument.
+type gossipData struct {
+	state *event.State
+}
+
+// newGossipData wraps the state (or a delta) so it can be handed to the mesh.
+func newGossipData(data mesh.GossipData) mesh.GossipData {
+	if state, ok := data.(*event.State); ok && state != nil {
+		return &gossipData{state: state}
+	}
+	return nil
+}
+
+// Encode encodes the payload.
+func (g *gossipData) Encode() [][]byte {
+	return g.state.Encode()
+}
+
+// Merge combines both of the payloads into a new one, leaving the originals untouched.
+func (g *gossipData) Merge(other mesh.GossipData) mesh.GossipData {
+	union := event.NewState("")
+	for _, data := range []mesh.GossipData{g, other} {
+		if data == nil {
+			continue
+		}
+
+		for _, buf := range data.Encode() {
+			if state, err := event.DecodeState(buf); err == nil {
+				union.Merge(state)
+			}
+		}
+	}
+	return &gossipData{state: union}
 }
 
 // getLocalPeerName retrieves or generates a local node name.
